@@ -120,6 +120,8 @@ func Build(s Spec, mons ...vnet.Monitor) *Built {
 	watchFlips := false
 	amnesiaAfterProposal := false
 	amnesiaAsync := false
+	byzFlips := false
+	asyncThenSync := false
 	initTx := 0
 	switch s.Profile {
 	case "sync-perm":
@@ -209,8 +211,9 @@ func Build(s Spec, mons ...vnet.Monitor) *Built {
 		cfg.K = vnet.Knobs{PDrop: 0.02, PDup: 0.08, PEarlyTimer: 0.01, PStaleTimer: 0.01, PAdvance: 0.02,
 			PDelayReset: 0.5, PTimeoutDecided: 0.05, PNewTx: 0.02, PTxMissing: 0.2, PSupply: 0.15, PUnasked: 0.003, PSyncLedger: 0.002, PNotify: 0.05, SlowNode: -1, ResetDelayNode: -1}
 		initTx = r.Intn(8)
-	case "byz":
+	case "byz", "byz-flips":
 		cfg = baseConfig(s, r, Opt{Ns: []int{4, 4, 4, 5, 6, 7, 7, 10}})
+		byzFlips = s.Profile == "byz-flips"
 		cfg.K = vnet.Knobs{PDrop: 0.01, PDup: 0.05, PEarlyTimer: 0.01, PStaleTimer: 0.002, PAdvance: 0.02,
 			PDelayReset: 0.3, PTimeoutDecided: 0.03, PNewTx: 0.02, PTxMissing: 0.1, PSupply: 0.15, PSyncLedger: 0.002, PAdv: 0.12, SlowNode: -1, ResetDelayNode: -1}
 		adv = true
@@ -289,6 +292,23 @@ func Build(s Spec, mons ...vnet.Monitor) *Built {
 		}
 		cfg.MaxClock = time.Duration(cfg.Heights) * 200 * cfg.TPB
 		initTx = r.Intn(6)
+	case "async-then-sync":
+		// "once the network is synchronous": an arbitrary asynchronous prefix (reordering, loss, duplication,
+		// early timeouts, possibly a restart of one validator or up to F silent ones) and then GST, after
+		// which everything due is delivered before timers fire
+		cfg = baseConfig(s, r, Opt{Ns: []int{4, 4, 5, 6, 7, 7, 10}, MinH: 2, MaxH: 3, AMEVModes: []int{0, 0, 1}})
+		// no loss: whatever is sent before GST is delivered, possibly late and out of order (loss inside a
+		// cut is the partition profile's business; arbitrary loss reaches the documented dBFT 2.0 liveness
+		// lock of TestDBFT_FourGoodNodesDeadlock, which the property does not cover)
+		cfg.K = vnet.Knobs{PDup: 0.05, PEarlyTimer: []float64{0.01, 0.05}[r.Intn(2)], PStaleTimer: 0.005, PAdvance: []float64{0.03, 0.2}[r.Intn(2)],
+			PDelayReset: 0.3, PNewTx: 0.01, SlowNode: -1, ResetDelayNode: -1}
+		if cfg.BaseHeight == 0 {
+			cfg.BaseHeight = 1
+		}
+		cfg.MaxSteps = 60000
+		cfg.MaxClock = 0
+		asyncThenSync = true
+		initTx = r.Intn(5)
 	case "silent-f", "partition", "amnesia":
 		cfg = baseConfig(s, r, Opt{Ns: []int{4, 4, 5, 6, 7, 7, 8, 10}, MinH: 2, MaxH: 4, AMEVModes: []int{0, 0, 1}, Dyn: 1})
 		cfg.K = vnet.Knobs{Sync: true, PDup: 0.03, PNewTx: 0.01, NotifyAll: true, PSyncLedger: []float64{0.002, 0.02}[r.Intn(2)], SlowNode: -1, ResetDelayNode: -1}
@@ -360,7 +380,30 @@ func Build(s Spec, mons ...vnet.Monitor) *Built {
 			cfg.Roles[r.Intn(cfg.N)] = vnet.Silent
 		}
 	}
+	if asyncThenSync {
+		f := (cfg.N - 1) / 3
+		switch r.Intn(3) {
+		case 0: // up to F silent validators
+			for _, id := range r.Perm(cfg.N)[:1+r.Intn(f)] {
+				cfg.Roles[id] = vnet.Silent
+			}
+		case 1: // one validator restarts (at most twice) during the asynchronous prefix
+			cfg.K.PRestart, cfg.K.MaxRestarts, cfg.K.RestartSet = 0.01, 1+r.Intn(2), []int{r.Intn(cfg.N)}
+		}
+	}
 	c := vnet.NewCluster(cfg, mons...)
+	if asyncThenSync {
+		gstAt := 20 + r.Intn(60*cfg.N)
+		synced := false
+		hooks.BeforeStep = func(c *vnet.Cluster) {
+			if !synced && c.Steps >= gstAt {
+				synced = true
+				c.Cfg.K = vnet.Knobs{Sync: true, PDup: 0.03, NotifyAll: true, PSyncLedger: 0.01, SlowNode: -1, ResetDelayNode: -1}
+				c.NoteFault()
+			}
+		}
+		hooks.Done = func(c *vnet.Cluster) bool { return synced && c.AllDone() }
+	}
 	switch s.Profile {
 	case "partition":
 		// an arbitrary cut set is completely cut off from an arbitrary event on, for an arbitrary period
@@ -438,6 +481,31 @@ func Build(s Spec, mons ...vnet.Monitor) *Built {
 	for i := 0; i < initTx; i++ {
 		c.AddTx(false, cfg.K.PTxMissing)
 	}
+	if byzFlips {
+		// the application switches the watch-only flag of one or two honest validators on and off at
+		// arbitrary steps (a node that turns watch-only counts as one of the F silent ones only in
+		// spirit: it keeps listening and comes back)
+		var flip []*vnet.Node
+		for _, n := range c.Nodes {
+			if n.Role == vnet.Honest && len(flip) < 1+r.Intn(2) && r.Intn(2) == 0 {
+				flip = append(flip, n)
+			}
+		}
+		if len(flip) == 0 {
+			flip = append(flip, c.HonestLiveOrAll()[0])
+		}
+		prev := hooks.BeforeStep
+		hooks.BeforeStep = func(c *vnet.Cluster) {
+			if prev != nil {
+				prev(c)
+			}
+			if c.Rng.Intn(40) == 0 {
+				n := flip[c.Rng.Intn(len(flip))]
+				n.Watch = !n.Watch
+				c.Stats["watch-flag-flips"]++
+			}
+		}
+	}
 	if watchFlips {
 		// the watch-only flag of one more validator is switched on and off in the middle of rounds
 		flip := c.Nodes[r.Intn(cfg.N)]
@@ -463,7 +531,7 @@ func Build(s Spec, mons ...vnet.Monitor) *Built {
 			}
 		}
 	}
-	if cfg.AMEV >= 0 && (s.Profile == "byz" || s.Profile == "async-benign" || s.Profile == "missing-tx" || s.Profile == "amnesia-async") && r.Intn(2) == 0 {
+	if cfg.AMEV >= 0 && (s.Profile == "byz" || s.Profile == "byz-flips" || s.Profile == "async-benign" || s.Profile == "missing-tx" || s.Profile == "amnesia-async") && r.Intn(2) == 0 {
 		// failing pre-block / block callbacks (allowed to fail under anti-MEV: the node waits for more (pre)commits)
 		for _, n := range c.Nodes {
 			if r.Intn(3) == 0 {
